@@ -1,13 +1,26 @@
 /-
   GV.Props.C02 — suspending and resuming a goroutine is invisible to the program.
+
+  Models: `GV.Model.Ctrl` (MiniGo + reference semantics), `GV.Model.Flat` (`flatten`, the switch-case machine with
+  and without suspension), `GV.Model.Blocking` (propagation loop of `PropagateAnalysis`).
+  All theorems quantify over every program of the modelled fragment (if / else-if chains, `for` with optional
+  condition and post statement, labelled and unlabelled break / continue, switch, return, blocks, calls), every
+  interpretation of the opaque primitives, every store and every suspension schedule; no `sorry`, no axioms beyond
+  the standard three.  Not modelled: `goto`, deferred calls, expression-level flattening (`&&`, `||`, argument order).
 -/
 import GV.Model.Ctrl
 import GV.Model.Flat
 import GV.Model.Blocking
 import GV.Proofs.Blocking
+import GV.Proofs.FlatCorrect
+import GV.Proofs.FlatLabels
+import GV.Proofs.Segment
+import GV.Proofs.FlatTop
 
 namespace GV.Props.C02
 open GV.Ctrl GV.Flat GV.Blocking
+
+/-! ### Blocking analysis -/
 
 /-- **propagate_lfp** — for EVERY visiting order of the pending call edges (package order, function order, Go map
     iteration order; fresh for each pass), the set computed by the propagation loop of `PropagateAnalysis`
@@ -31,5 +44,141 @@ theorem propagate_order_irrelevant (g : Graph) (o1 o2 : Nat → List Edge → Li
     ∀ v, v ∈ blocking o1 g ↔ v ∈ blocking o2 g := by
   intro v
   rw [(propagate_lfp g o1 h1).1 v, (propagate_lfp g o2 h2).1 v]
+
+/-! ### Flattening -/
+
+/-- **flatten_labels_nodup** — `caseCounter` never hands out a case number twice: the labels of the flattened code of
+    ANY function body are pairwise distinct (so `switch ($s)` has exactly one landing point per `$s`). -/
+theorem flatten_labels_nodup (body : Stmt) : (labels (flatten body)).Nodup :=
+  flatten_labels_nodup_aux body
+
+/-- **block_compile** (decomposition step 1) — the block-compilation lemma for the switch-case machine WITHOUT
+    suspension: wherever the flattened code of a statement `s` sits inside a code list with distinct labels, running it
+    from a store `st` in which the reference semantics gives `(g, st')` reaches exactly the continuation the completion
+    signal `g` selects (`K`: fall through / `$s = endCase` / post statement and `$s = beginCase` / function return). -/
+theorem block_compile (E : Env σ) (code : List Instr) (hnd : (labels code).Nodup)
+    {s : Stmt} {st : σ} {g : Sig} {st' : σ} (hev : Eval E s st g st')
+    (ctx : Ctx) (n : Nat) (pre k : List Instr) (o : σ)
+    (hcode : code = pre ++ ((flat ctx s n).1 ++ k)) (hk : K E code ctx k o g st') :
+    Exec E code ((flat ctx s n).1 ++ k) st o :=
+  (block_both E code hnd hev).1 ctx n pre k o hcode hk
+
+/-- **segmentation** (decomposition step 2) — suspending at a `case N:` boundary (save `$f`, return, `$restore`,
+    re-enter through `switch ($s)`, possibly many times for one call) is the identity on (store, `$s`, `$r`):
+    whatever the machine without suspension computes from a code suffix, the machine under ANY schedule computes too,
+    provided the primitives keep the store inside the saved part (`EnvStable`, see `saved_complete`). -/
+theorem segmentation (E : Env σ) (forget : σ → σ) (sched : Nat → Nat → σ → Nat) (code : List Instr)
+    (hnd : (labels code).Nodup) (hE : EnvStable E forget)
+    {suf : List Instr} {st o : σ} (h : Exec E code suf st o) (hsuf : ∃ pr, code = pr ++ suf)
+    (hst : forget st = st) (k : Nat) : RunS E forget sched code suf st none false k o :=
+  segmentation_aux E forget sched code hnd hE h hsuf hst k
+
+/-- **flatten_correct** — for every function body, every interpretation of the primitives, every initial store and
+    EVERY schedule (any subset of the dynamic call occurrences suspends, each any number of times), running
+    `flatten body` with save/restore of the frame ends in exactly the final store (which includes the output trace
+    and the result variables) of the reference semantics of `body`. -/
+theorem flatten_correct (E : Env σ) (forget : σ → σ) (hE : EnvStable E forget) (sched : Nat → Nat → σ → Nat)
+    (body : Stmt) {st : σ} {g : Sig} {st' : σ} (hev : Eval E body st g st') (hg : g = .normal ∨ g = .ret)
+    (hst : forget st = st) :
+    RunS E forget sched (flatten body) (flatten body) st none false 0 st' :=
+  segmentation E forget sched (flatten body) (flatten_labels_nodup body) hE
+    (flatten_exec E body (flatten_labels_nodup body) hev hg) ⟨[], rfl⟩ hst 0
+
+/-! ### The saved frame -/
+
+/-- concrete store: the locals of this invocation and everything else (heap, globals, output trace) -/
+structure LStore (G : Type) where
+  loc : Nat → Nat
+  glob : G
+
+/-- save `$f = {…saved…}` / `$restore`: a local that is not in the saved list comes back undefined (0) -/
+def forgetVars (saved : List Nat) (s : LStore G) : LStore G :=
+  { s with loc := fun v => if v ∈ saved then s.loc v else 0 }
+
+/-- the primitives of the function assign only locals in `W` (`fc.localVars`: every JS variable the translation of the
+    function allocates with `newVariable`, utils.go:284-327) -/
+structure WritesOnly (E : Env (LStore G)) (W : List Nat) : Prop where
+  act : ∀ a s v, v ∉ W → (E.act a s).loc v = s.loc v
+  cond : ∀ c s v, v ∉ W → (E.cond c s).2.loc v = s.loc v
+  call : ∀ f s v, v ∉ W → (E.call f s).loc v = s.loc v
+
+/-- the saved list of the model: parameters and every allocated local (functions.go:288-304) -/
+def savedVars (params W : List Nat) : List Nat := params ++ W
+
+theorem forgetVars_fix {saved : List Nat} {s : LStore G} :
+    forgetVars saved s = s ↔ ∀ v, v ∉ saved → s.loc v = 0 := by
+  constructor
+  · intro h v hv
+    have : (forgetVars saved s).loc v = s.loc v := by rw [h]
+    simp only [forgetVars, hv, if_false] at this
+    exact this.symm
+  · intro h
+    cases s with
+    | mk loc glob =>
+      simp only [forgetVars, LStore.mk.injEq, and_true]
+      funext v
+      by_cases hv : v ∈ saved
+      · simp [hv]
+      · simp only [hv, if_false]; exact (h v hv).symm
+
+/-- **saved_complete** — every variable assigned in the function is in the saved set, hence the store stays inside
+    the part that survives a save/restore round trip (the hypothesis of `segmentation`). -/
+theorem saved_complete (E : Env (LStore G)) (params W : List Nat) (hW : WritesOnly E W) :
+    (∀ v, v ∈ W → v ∈ savedVars params W) ∧ EnvStable E (forgetVars (savedVars params W)) := by
+  refine ⟨fun v hv => List.mem_append_right _ hv, ?_⟩
+  have key : ∀ (s s' : LStore G), (∀ v, v ∉ W → s'.loc v = s.loc v) →
+      forgetVars (savedVars params W) s = s → forgetVars (savedVars params W) s' = s' := by
+    intro s s' hw hs
+    rw [forgetVars_fix] at hs ⊢
+    intro v hv
+    have hvW : v ∉ W := fun h => hv (List.mem_append_right _ h)
+    rw [hw v hvW]; exact hs v hv
+  exact ⟨fun a s hs => key s _ (hW.act a s) hs, fun c s hs => key s _ (hW.cond c s) hs,
+    fun f s hs => key s _ (hW.call f s) hs⟩
+
+/-- **flatten_correct_frame** — `flatten_correct` for the concrete frame: locals outside `params ++ W` are undefined
+    at function entry, the primitives write only locals of `W`; then under every schedule the resumable function
+    computes the reference result although every suspension drops all unsaved locals. -/
+theorem flatten_correct_frame (E : Env (LStore G)) (params W : List Nat) (hW : WritesOnly E W)
+    (sched : Nat → Nat → LStore G → Nat) (body : Stmt) {st : LStore G} {g : Sig} {st' : LStore G}
+    (hev : Eval E body st g st') (hg : g = .normal ∨ g = .ret)
+    (hst : ∀ v, v ∉ savedVars params W → st.loc v = 0) :
+    RunS E (forgetVars (savedVars params W)) sched (flatten body) (flatten body) st none false 0 st' :=
+  flatten_correct E _ (saved_complete E params W hW).2 sched body hev hg (forgetVars_fix.mpr hst)
+
+/-! ### Why the saved set matters: a local dropped from the frame is observable -/
+
+/-- primitives of the witness: action 0 sets local 0 to 1; calls and conditions do nothing -/
+def witnessEnv : Env (LStore Unit) :=
+  ⟨fun _ s => { s with loc := fun v => if v = 0 then 1 else s.loc v }, fun _ s => (true, s), fun _ s => s⟩
+
+def witnessBody : Stmt := .seq (.act 0) (.seq (.call 0) .ret)
+
+def zeroStore : LStore Unit := ⟨fun _ => 0, ()⟩
+
+/-- **saved_incomplete_counterexample** — if local 0 is dropped from the saved list, the program `x = 1; f(); return`
+    under the schedule "the call suspends once" ends with `x = 0`, while the reference semantics ends with `x = 1`. -/
+theorem saved_incomplete_counterexample :
+    ∃ o ref : LStore Unit,
+      RunS witnessEnv (forgetVars []) (fun _ _ _ => 1) (flatten witnessBody) (flatten witnessBody) zeroStore none false 0 o ∧
+      Eval witnessEnv witnessBody zeroStore .ret ref ∧ o.loc 0 = 0 ∧ ref.loc 0 = 1 := by
+  have hcode : flatten witnessBody = [.case 0, .act 0, .call 0 1, .ret] := by decide
+  refine ⟨forgetVars [] (witnessEnv.act 0 zeroStore), witnessEnv.act 0 zeroStore, ?_, ?_, rfl, rfl⟩
+  · rw [hcode]
+    refine .case (.act (.callSusp (m := 0) rfl ?_))
+    have hs : seek 1 [Instr.case 0, .act 0, .call 0 1, .ret] = [.call 0 1, .ret] := by decide
+    rw [hs]
+    exact .resumeDone .ret
+  · exact .seqN .act (.seqN .call .ret)
+
+/-- the hypotheses of `flatten_correct_frame` are satisfiable by the same program once local 0 is saved -/
+example : ∃ o, RunS witnessEnv (forgetVars (savedVars [] [0])) (fun _ _ _ => 1)
+    (flatten witnessBody) (flatten witnessBody) zeroStore none false 0 o ∧ o.loc 0 = 1 := by
+  refine ⟨witnessEnv.act 0 zeroStore, ?_, rfl⟩
+  refine flatten_correct_frame witnessEnv [] [0] ?_ _ witnessBody (.seqN .act (.seqN .call .ret)) (.inr rfl) (fun _ _ => rfl)
+  refine ⟨?_, fun _ _ _ _ => rfl, fun _ _ _ _ => rfl⟩
+  intro a s v hv
+  have : v ≠ 0 := by simpa using hv
+  simp [witnessEnv, this]
 
 end GV.Props.C02
